@@ -141,11 +141,20 @@ def instances(  # pylint: disable=too-many-arguments,too-many-locals
     return case
 
 
+@st.composite
+def sized_lists(draw, elements, max_size, min_size=0):
+    """Lists whose length is drawn uniformly first (st.lists on its own
+    averages about five elements, far too short for histories).  Shrinks the
+    length, then the elements."""
+    n = draw(st.integers(min_size, max_size))
+    return draw(st.lists(elements, min_size=n, max_size=n))
+
+
 def histories(max_len=40, max_a=7, max_b=5):
     """Choice sequences; missing entries are read as [0, 0]."""
-    return st.lists(
+    return sized_lists(
         st.tuples(st.integers(0, max_a), st.integers(0, max_b)).map(list),
-        max_size=max_len,
+        max_len,
     )
 
 
